@@ -120,7 +120,7 @@ def draw_config(rng, text, allow_path=True):
 
 
 def truth_of(segs):
-    return [[g.node.path(), g.seg_count, g.set_index, g.node.id] for g in segs]
+    return [[g.node.path(), g.seg_count, g.set_index, g.node.id, getattr(g.node, 'uid', -1)] for g in segs]
 
 
 def run(text, cfg, charset='E', log=None, callback=None, eof=None):
